@@ -266,6 +266,9 @@ impl Zone {
         }
 
         if other.soa.is_some() {
+            // the other zone brings its own SOA RR at the apex: it replaces
+            // ours, rather than being added to the RRset.
+            self.records.this.remove(&RecordType::SOA);
             self.soa = other.soa;
         }
 
